@@ -104,8 +104,17 @@ def _iter_spec(rng: random.Random, name: str, maxlen: int = 8) -> dict:
         return {"tool": name, "srcs": [keys_seq(rng, maxlen)], "fns": [], "params": params}
     if name == "iter_sentinel":
         ks = keys_seq(rng, maxlen, 4)
-        kind = rng.choice(["equal", "equal", "absent", "identical", "nan", "touchy", "onesided"])
+        kind = rng.choice(["equal", "equal", "absent", "identical", "nan", "touchy", "onesided", "touchy_identical"])
         spec = {"tool": name, "srcs": [ks], "fns": ["nullary"], "params": {}}
+        if kind == "touchy_identical":
+            # the callable hands back the very sentinel OBJECT, and that object cannot be compared at all (its ``==`` fails,
+            # like the ambiguous truth value of an array): identity settles it before any comparison is attempted
+            exc = rng.choice(["ValueError", "KeyError", "LookupError", "RuntimeError"])
+            spec["raw"] = True
+            spec["srcs"] = [[rng.choice([0, 1, 2]) for _ in ks]]
+            spec["params"]["sentinel"] = ["raw", ["X", 9, exc]]
+            spec["params"]["identical_at"] = rng.randrange(max(1, len(ks)))
+            return spec
         if kind == "touchy":
             # an item whose comparison with the sentinel FAILS (ValueError, KeyError, ...): the iteration ends with
             # that exception, right there
@@ -393,6 +402,17 @@ def _agg_spec(rng: random.Random, name: str, maxlen: int = 8) -> dict:
             spec["srcs"] = [[[rng.randrange(3), rng.randrange(5)] for _ in range(n)]]
         if rng.random() < 0.3:
             spec["params"]["kwargs"] = {name: rng.randrange(5) for name in rng.sample(["a", "b", "c"], rng.randint(1, 2))}
+        return spec
+    if name in ("sorted", "min", "max", "nlargest", "nsmallest") and cls == "exact" and rng.random() < 0.5:
+        # values that are EQUAL across types (1 == 1.0 == True, 0 == -0.0 == False) under a key that tells them apart:
+        # the key is computed for every item, equal to an earlier one or not
+        spec["raw"] = True
+        spec["srcs"] = [raw_seq(rng, [0, 1, 2, True, False, 1.0, 2.0, 0.0, -0.0, ["F", 1, 1], ["F", 2, 1]], maxlen)]
+        spec["fns"] = ["typekey"]
+        if name == "sorted" and rng.random() < 0.5:
+            spec["params"]["reverse"] = True
+        if name in ("nlargest", "nsmallest"):
+            spec["params"]["n"] = rng.randint(0, len(spec["srcs"][0]) + 1)
         return spec
     if name == "sorted":
         if cls in ("items", "inexact", "exact"):
